@@ -1020,6 +1020,15 @@ class System(BaseModel, Serializable):
             scc = [n for n in dag.nodes[supernode]['members']]
             samples.reset_convergence()
 
+            # A sample is valid for these components if none of the inputs they consume is NaN (a NaN produced by an
+            # unrelated component must not blank this one, which would also make the result depend on listing order)
+            samples.valid_idx = np.full(N, True)
+            for node in scc:
+                for var, arr in all_inputs.items():
+                    if str(var).split(LATENT_STR_ID)[0] in self[node].inputs and np.issubdtype(arr.dtype, np.number):
+                        samples.valid_idx = np.logical_and(samples.valid_idx,
+                                                           ~np.any(np.isnan(arr).reshape((N, -1)), axis=1))
+
             # Compute single component feedforward output (no FPI needed)
             if len(scc) == 1:
                 if verbose:
